@@ -40,7 +40,11 @@ EXTENDS Integers, Sequences, FiniteSets, LogDefs
 
 CONSTANTS R,            \* replicas (strings)
           MinISR,       \* minimum in-sync replicas for a commit
-          FetchMax,     \* max records per replication response
+          FetchMax,     \* capacity of one replication response, in size units (a plain record is 1)
+          OffsetReset,  \* becomeLeader: "all" = replica offsets of earlier terms are forgotten (the code);
+                        \* defective variants used to derive directed scenarios: "none" keeps them,
+                        \* "ahead" forgets only those beyond the new leader's log end
+          WideEvery,    \* > 0: every record whose value is a multiple of it takes 2 units; 0: all plain
           HWFallback,   \* BOOLEAN: a follower may fail to reach a serving leader when reconciling
           ElectAlive,   \* BOOLEAN: a leader may be replaced while it is still up
           ElectDown,    \* BOOLEAN: a replica that is down may be elected
@@ -100,6 +104,11 @@ CommitRun(io, q, h, nw) ==
             {[v |-> taken[i].v, off |-> taken[i].off, pol |-> "ALL"] :
                i \in {j \in 1..n : taken[j].pol = "ALL"}},
             IF m > h /\ m > Min({nw[x] : x \in DOMAIN io}) THEN {"stale-isr-offset"} ELSE {}>>
+
+\* size of a record in units, and of the records lg[a..b]
+Sz(v) == IF WideEvery > 0 /\ v % WideEvery = 0 THEN 2 ELSE 1
+RECURSIVE SzSum(_, _, _)
+SzSum(lg, a, b) == IF a > b THEN 0 ELSE Sz(lg[a].v) + SzSum(lg, a + 1, b)
 
 Leader == meta.leader
 Leading(l) == up[l] /\ role[l] = "leader"
@@ -176,7 +185,11 @@ N_Fetch(f, late) ==
       io == IF f \in DOMAIN isrOff[l] THEN [isrOff[l] EXCEPT ![f] = Max2(@, req)] ELSE isrOff[l]
       cr == CommitRun(io, pend[l], hw[l], NewestAll)
       atEnd == req >= Newest(l)
-      n == IF atEnd THEN 0 ELSE IF Len(log[l]) - (req + 1) < FetchMax THEN Len(log[l]) - (req + 1) ELSE FetchMax
+      \* replicator.replicate: records are packed in order while the next one still fits;
+      \* the first that does not fit ends the response (it leads the next one)
+      rest == Len(log[l]) - (req + 1)
+      n == IF atEnd THEN 0
+           ELSE Cardinality({k \in 1..rest : SzSum(log[l], req + 2, req + 1 + k) <= FetchMax})
       data == IF n = 0 THEN <<>> ELSE SubSeq(log[l], req + 2, req + 1 + n)
       sent == IF late THEN cr[1] ELSE hw[l]
   IN [Cur EXCEPT !.isrOff = [isrOff EXCEPT ![l] = io],
@@ -312,7 +325,10 @@ N_Elect(n, reach, lag) ==
                  !.ec = [r \in R |-> IF r = n THEN ecn ELSE IF r \in fol THEN res(r)[2] ELSE ec[r]],
                  \* becomeLeader: offsets learned in an earlier term are forgotten
                  !.isrOff = [isrOff EXCEPT ![n] = IF up[n]
-                                                   THEN [x \in DOMAIN @ |-> IF x = n THEN Newest(n) ELSE -1] ELSE @],
+                                                   THEN [x \in DOMAIN @ |-> IF x = n THEN Newest(n)
+                                                           ELSE IF OffsetReset = "none" THEN @[x]
+                                                           ELSE IF OffsetReset = "ahead" /\ @[x] <= Newest(n) THEN @[x]
+                                                           ELSE -1] ELSE @],
                  !.pend = [r \in R |-> <<>>],
                  !.caught = [r \in R |-> FALSE],
                  !.taint = taint \cup UNION {res(f)[3] : f \in fol}]
